@@ -14,18 +14,32 @@
 (*   "walk"    get_walkable_addresses(service) adds the introduction service to services_per_peer       *)
 (*   "svcjoin" a peer whose services are known BEFORE it becomes verified is not entered in / refreshed *)
 (*             in reverse_service_lookup when it becomes verified                                       *)
+(*                                                                                                      *)
+(* The CALLER's side: discover_services takes `services: Iterable`.  bufs are NB collections of service *)
+(* ids OWNED BY THE CALLER (payload lists, sets, dict keys; IterBufs: one-shot iterators).              *)
+(* DiscoverServicesBuf hands the collection object itself to the graph, possibly the same object for    *)
+(* several peers; CallerMutates is the caller changing its own object afterwards.  The graph has value  *)
+(* semantics: what a peer advertises is decided by the calls made, never by what becomes of the objects *)
+(* the caller passed in (ArgumentsNotRetained, OnlyTheNamedPeer), and the graph leaves the caller's     *)
+(* collections alone (CallerKeepsItsCollection); a one-shot iterator is read to its end by the call.    *)
+(*   "alias"    services_per_peer keeps the caller's collection object for a peer without an entry, and *)
+(*              later `|=` updates write through it                                                     *)
+(*   "iteronce" discover_services reads `services` twice: with a one-shot iterator the second pass      *)
+(*              (the refresh of reverse_service_lookup) sees nothing                                    *)
 EXTENDS Naturals, Sequences, FiniteSets, TLC, SequencesExt
 
 CONSTANTS NP, NA, NS,          \* peers 1..NP (public keys), addresses 1..NA, services 1..NS ; 0 = none
           V6,                  \* addresses of class UDPv6Address, the others are UDPv4Address
           BlackAddr, BlackMid, \* Network.blacklist / Network.blacklist_mids
           IpCap, IntroCap, SvcCap,
+          NB, IterBufs,        \* the caller's collections 1..NB (NB = 0: none); IterBufs: the one-shot iterators among them
           Defects,
           MaxDepth
 
 Peers == 1..NP
 Addrs == 1..NA
 Svcs  == 1..NS
+Bufs  == 1..NB
 Home(p) == ((p - 1) % NA) + 1                 \* the address a peer usually speaks from
 Cls(a)  == IF a \in V6 THEN "v6" ELSE "v4"
 
@@ -38,11 +52,16 @@ VARIABLES verified,   \* keys of Network.verified_peers
           introCache, \* << <<p, {a...}>> ... >>       : reverse_intro_lookup
           svcCache,   \* << <<s, {<<p, m>>...}>> ... >>: reverse_service_lookup; m = 0: the stored object of p,
                       \*                                 m = a: a foreign object of key p with the single address a
+          bufs,       \* [Bufs -> SUBSET Svcs]         : what the caller's collections hold (iterator: what is left)
+          svcRef,     \* [Peers -> 0..NB]              : only with "alias": the caller's collection that IS the
+                      \*                                 value of services_per_peer[p] (0: a set of the graph's own)
           ret,        \* return value of the last call as a set (peers / addresses), {} for None / no result
           depth,      \* number of calls made (every call is enabled only while depth < MaxDepth; hidden by the VIEWs)
           op          \* the last call <<name, peer, address>> (read by the action properties only; hidden by the VIEWs)
 absvars == <<verified, addrOf, services, all>>
-vars    == <<verified, addrOf, services, all, byKey, ipCache, introCache, svcCache, ret, depth, op>>
+caller  == <<bufs, svcRef>>
+graph   == <<verified, addrOf, services, all, byKey, ipCache, introCache, svcCache>>
+vars    == <<verified, addrOf, services, all, byKey, ipCache, introCache, svcCache, bufs, svcRef, ret, depth, op>>
 Did(n, x, y) == depth < MaxDepth /\ op' = <<n, x, y>> /\ depth' = depth + 1
 
 NoAddr     == [v4 |-> 0, v6 |-> 0]
@@ -100,7 +119,7 @@ AddVerified(p, a) ==
   /\ LET r == AddBody(p, a, all) IN
        verified' = r.v /\ byKey' = r.k /\ addrOf' = r.ad /\ all' = r.al /\ svcCache' = r.sc
   /\ ret' = {}
-  /\ UNCHANGED <<services, ipCache, introCache>>
+  /\ UNCHANGED <<services, ipCache, introCache, bufs, svcRef>>
 
 (* ------------------------------ discover_address --------------------------------------------------- *)
 DiscoverAddress(p, pa, a, sv, ns) ==
@@ -116,19 +135,54 @@ DiscoverAddress(p, pa, a, sv, ns) ==
      IN /\ verified' = r.v /\ byKey' = r.k /\ addrOf' = r.ad /\ all' = r.al /\ svcCache' = r.sc
         /\ introCache' = ic1
   /\ ret' = {}
-  /\ UNCHANGED <<services, ipCache>>
+  /\ UNCHANGED <<services, ipCache, bufs, svcRef>>
 
 (* ------------------------------ discover_services -------------------------------------------------- *)
-DiscoverServices(p, pa, S2) ==
+(* services_per_peer[p] |= S2, where S2 was read from the caller's collection b (0: from a value nobody else holds). *)
+(* Repaired code: a set of the graph's own is updated, the caller's collection is only read (an iterator to its end).  *)
+StoreServices(p, S2, b) ==
+  LET used == [x \in Bufs |-> IF x = b /\ b \in IterBufs THEN {} ELSE bufs[x]] IN    \* an iterator is read to its end
+  IF "alias" \notin Defects THEN
+       /\ services' = [services EXCEPT ![p] = @ \cup S2]
+       /\ bufs' = used
+       /\ UNCHANGED svcRef
+  ELSE LET take == b # 0 /\ b \notin IterBufs /\ services[p] = {} /\ svcRef[p] = 0   \* no entry yet: the caller's object is stored
+           tgt  == IF take THEN b ELSE svcRef[p]                         \* the shared object written to (0: p's own set)
+           new  == IF take THEN bufs[b] ELSE services[p] \cup S2
+       IN /\ svcRef'   = [svcRef EXCEPT ![p] = tgt]
+          /\ services' = [q \in Peers |-> IF q = p \/ (tgt # 0 /\ svcRef[q] = tgt) THEN new ELSE services[q]]
+          /\ bufs'     = [x \in Bufs |-> IF x = tgt THEN new ELSE used[x]]
+
+RefreshSvcCache(p, pa, S2) ==
+  LET m == IF p \in byKey THEN 0 ELSE pa IN
+    [i \in 1..Len(svcCache) |->
+       IF svcCache[i][1] \in S2
+       THEN <<svcCache[i][1], {e \in svcCache[i][2] : e[1] # p} \cup {<<p, m>>}>> ELSE svcCache[i]]
+
+DiscoverServices(p, pa, S2) ==         \* the services arrive in a fresh list (as all callers in the library do)
   /\ Did("DiscoverServices", p, 0)
   /\ S2 # {}
-  /\ services' = [services EXCEPT ![p] = @ \cup S2]
-  /\ LET m == IF p \in byKey THEN 0 ELSE pa IN
-     svcCache' = [i \in 1..Len(svcCache) |->
-                    IF svcCache[i][1] \in S2
-                    THEN <<svcCache[i][1], {e \in svcCache[i][2] : e[1] # p} \cup {<<p, m>>}>> ELSE svcCache[i]]
+  /\ StoreServices(p, S2, 0)
+  /\ svcCache' = RefreshSvcCache(p, pa, S2)
   /\ ret' = {}
   /\ UNCHANGED <<verified, addrOf, all, byKey, ipCache, introCache>>
+
+DiscoverServicesBuf(p, pa, b) ==       \* the services arrive in the caller's collection b, handed over as it is
+  /\ Did("DiscoverServicesBuf", p, b)
+  /\ bufs[b] # {}
+  /\ StoreServices(p, bufs[b], b)
+  /\ svcCache' = RefreshSvcCache(p, pa, IF b \in IterBufs /\ "iteronce" \in Defects THEN {} ELSE bufs[b])
+  /\ ret' = {}
+  /\ UNCHANGED <<verified, addrOf, all, byKey, ipCache, introCache>>
+
+(* the caller changes its own collection in place (an iterator slot: a new iterator over S takes the place) *)
+CallerMutates(b, S) ==
+  /\ Did("CallerMutates", 0, b)
+  /\ S # bufs[b]
+  /\ bufs' = [bufs EXCEPT ![b] = S]
+  /\ services' = IF "alias" \in Defects THEN [q \in Peers |-> IF svcRef[q] = b THEN S ELSE services[q]] ELSE services
+  /\ ret' = {}
+  /\ UNCHANGED <<verified, addrOf, all, byKey, ipCache, introCache, svcCache, svcRef>>
 
 (* ------------------------------ get_peers_for_service ---------------------------------------------- *)
 PFSOut(sc, s)   == IF Has(sc, s)
@@ -140,7 +194,7 @@ GetPeersForService(s) ==
   /\ Did("GetPeersForService", 0, 0)
   /\ svcCache' = PFSCache(svcCache, s)
   /\ ret' = {e[1] : e \in PFSOut(svcCache, s)}
-  /\ UNCHANGED <<verified, addrOf, services, all, byKey, ipCache, introCache>>
+  /\ UNCHANGED <<verified, addrOf, services, all, byKey, ipCache, introCache, bufs, svcRef>>
 
 (* ------------------------------ get_walkable_addresses --------------------------------------------- *)
 ObjAddrs(e) == IF e[2] = 0 THEN AddrSet(e[1]) ELSE {e[2]}
@@ -163,7 +217,7 @@ GetWalkable(s, o) ==
   /\ svcCache' = IF s = 0 THEN svcCache ELSE PFSCache(svcCache, s)
   /\ services' = IF s # 0 /\ "walk" \in Defects
                  THEN WalkServices(Dom(all) \ UNION {ObjAddrs(e) : e \in PFSOut(svcCache, s)}, o) ELSE services
-  /\ UNCHANGED <<verified, addrOf, all, byKey, ipCache, introCache>>
+  /\ UNCHANGED <<verified, addrOf, all, byKey, ipCache, introCache, bufs, svcRef>>
 
 (* ------------------------------ get_verified_by_address -------------------------------------------- *)
 IpHit(a) == LET c == IF Has(ipCache, a) THEN Get(ipCache, a) ELSE 0 IN
@@ -179,13 +233,13 @@ GetByAddressG(a, q, strict) ==
           \/ q # 0 /\ q = IpHit(a)
   /\ ipCache' = IF q = 0 THEN Del(ipCache, a) ELSE PutEnd(ipCache, a, q, IpCap)
   /\ ret' = IF q = 0 THEN {} ELSE {q}
-  /\ UNCHANGED <<verified, addrOf, services, all, byKey, introCache, svcCache>>
+  /\ UNCHANGED <<verified, addrOf, services, all, byKey, introCache, svcCache, bufs, svcRef>>
 GetByAddress(a, q) == GetByAddressG(a, q, TRUE)
 
 GetByKey(p) ==
   /\ Did("GetByKey", p, 0)
   /\ ret' = IF p \in byKey THEN {p} ELSE {}
-  /\ UNCHANGED <<verified, addrOf, services, all, byKey, ipCache, introCache, svcCache>>
+  /\ UNCHANGED <<verified, addrOf, services, all, byKey, ipCache, introCache, svcCache, bufs, svcRef>>
 
 (* ------------------------------ get_introductions_from --------------------------------------------- *)
 GetIntroductionsFrom(p) ==
@@ -193,13 +247,14 @@ GetIntroductionsFrom(p) ==
   /\ IF Has(introCache, p)
      THEN ret' = Get(introCache, p) /\ introCache' = introCache
      ELSE ret' = AbsIntros(p) /\ introCache' = Trim(Append(introCache, <<p, AbsIntros(p)>>), IntroCap)
-  /\ UNCHANGED <<verified, addrOf, services, all, byKey, ipCache, svcCache>>
+  /\ UNCHANGED <<verified, addrOf, services, all, byKey, ipCache, svcCache, bufs, svcRef>>
 
 (* ------------------------------ removal ------------------------------------------------------------ *)
 Forget(gone) ==
   /\ verified' = verified \ gone
   /\ addrOf'   = [p \in Peers |-> IF p \in gone THEN NoAddr ELSE addrOf[p]]
   /\ services' = [p \in Peers |-> IF p \in gone THEN {} ELSE services[p]]
+  /\ svcRef'   = [p \in Peers |-> IF p \in gone THEN 0 ELSE svcRef[p]]      \* services_per_peer.pop(key)
 
 RemoveByAddress(a) ==
   /\ Did("RemoveByAddress", 0, a)
@@ -207,7 +262,7 @@ RemoveByAddress(a) ==
   /\ LET gone == {p \in verified : a \in AddrSet(p)} IN
        Forget(gone) /\ byKey' = IF "rba" \in Defects THEN byKey ELSE byKey \ gone
   /\ ret' = {}
-  /\ UNCHANGED <<ipCache, introCache, svcCache>>
+  /\ UNCHANGED <<ipCache, introCache, svcCache, bufs>>
 
 RemovePeer(p) ==       \* called with the stored object of a verified peer
   /\ Did("RemovePeer", p, 0)
@@ -216,7 +271,7 @@ RemovePeer(p) ==       \* called with the stored object of a verified peer
   /\ Forget({p})
   /\ byKey' = byKey \ {p}
   /\ ret' = {}
-  /\ UNCHANGED <<ipCache, introCache, svcCache>>
+  /\ UNCHANGED <<ipCache, introCache, svcCache, bufs>>
 
 (* ------------------------------ snapshot / load_snapshot ------------------------------------------- *)
 FreshLoaded(S) == [a \in Addrs |-> IF a \in S THEN EmptyEntry ELSE Absent]
@@ -224,14 +279,14 @@ FreshLoaded(S) == [a \in Addrs |-> IF a \in S THEN EmptyEntry ELSE Absent]
 Snapshot ==            \* snapshot() of this graph loaded into a fresh graph; ret = what is walkable there
   /\ Did("Snapshot", 0, 0)
   /\ ret' = Dom(FreshLoaded(SnapAddrs))
-  /\ UNCHANGED <<verified, addrOf, services, all, byKey, ipCache, introCache, svcCache>>
+  /\ UNCHANGED <<verified, addrOf, services, all, byKey, ipCache, introCache, svcCache, bufs, svcRef>>
 
 LoadSnapshot(S) ==     \* a snapshot listing the addresses S loaded into this graph
   /\ Did("LoadSnapshot", 0, 0)
   /\ S # {}
   /\ all' = [a \in Addrs |-> IF a \in S THEN EmptyEntry ELSE all[a]]
   /\ ret' = {}
-  /\ UNCHANGED <<verified, addrOf, services, byKey, ipCache, introCache, svcCache>>
+  /\ UNCHANGED <<verified, addrOf, services, byKey, ipCache, introCache, svcCache, bufs, svcRef>>
 
 (* ------------------------------ behaviours --------------------------------------------------------- *)
 Init == /\ verified = {} /\ byKey = {}
@@ -239,15 +294,19 @@ Init == /\ verified = {} /\ byKey = {}
         /\ services = [p \in Peers |-> {}]
         /\ all = [a \in Addrs |-> Absent]
         /\ ipCache = <<>> /\ introCache = <<>> /\ svcCache = <<>>
+        /\ bufs = [b \in Bufs |-> {((b - 1) % NS) + 1}] /\ svcRef = [p \in Peers |-> 0]
         /\ ret = {} /\ depth = 0 /\ op = <<"Init", 0, 0>>
 
 DiscoverAddressH(p, a, sv, ns) == DiscoverAddress(p, Home(p), a, sv, ns)
 DiscoverServicesH(p, S2)       == DiscoverServices(p, Home(p), S2)
+DiscoverServicesBufH(p, b)     == DiscoverServicesBuf(p, Home(p), b)
 SnapSets == {{a} : a \in Addrs} \cup {Addrs}
 
 Mutation == \/ \E p \in Peers, a \in Addrs : AddVerified(p, a)
             \/ \E p \in Peers, a \in Addrs, sv \in 0..NS, ns \in BOOLEAN : DiscoverAddressH(p, a, sv, ns)
             \/ \E p \in Peers, S2 \in SUBSET Svcs : DiscoverServicesH(p, S2)
+            \/ \E p \in Peers, b \in Bufs : DiscoverServicesBufH(p, b)
+            \/ \E b \in Bufs, S \in SUBSET Svcs : CallerMutates(b, S)
             \/ \E a \in Addrs : RemoveByAddress(a)
             \/ \E p \in Peers : RemovePeer(p)
             \/ \E S \in SnapSets : LoadSnapshot(S)
@@ -260,15 +319,17 @@ Query    == \/ \E a \in Addrs, q \in 0..NP : GetByAddress(a, q)
 Next == Mutation \/ Query
 Spec == Init /\ [][Next]_vars
 
-NoDepth    == <<verified, addrOf, services, all, byKey, ipCache, introCache, svcCache, ret>>   \* VIEW of dumped graphs
-NoOp       == <<verified, addrOf, services, all, byKey, ipCache, introCache, svcCache, ret, depth>>   \* exact depth, any number of workers
-NoRetOp    == <<verified, addrOf, services, all, byKey, ipCache, introCache, svcCache, depth>>
-NoRet      == <<verified, addrOf, services, all, byKey, ipCache, introCache, svcCache>>        \* VIEW of large runs
+NoDepth    == <<verified, addrOf, services, all, byKey, ipCache, introCache, svcCache, bufs, svcRef, ret>>   \* VIEW of dumped graphs
+NoOp       == <<verified, addrOf, services, all, byKey, ipCache, introCache, svcCache, bufs, svcRef, ret, depth>>   \* exact depth, any number of workers
+NoRetOp    == <<verified, addrOf, services, all, byKey, ipCache, introCache, svcCache, bufs, svcRef, depth>>
+NoRet      == <<verified, addrOf, services, all, byKey, ipCache, introCache, svcCache, bufs, svcRef>>        \* VIEW of large runs
 
 (* ------------------------------ properties --------------------------------------------------------- *)
 TypeOK == /\ verified \subseteq Peers /\ byKey \subseteq Peers
           /\ Len(ipCache) <= IpCap /\ Len(introCache) <= IntroCap /\ Len(svcCache) <= SvcCap
           /\ \A p \in Peers : p \notin verified => addrOf[p] = NoAddr
+          /\ bufs \in [Bufs -> SUBSET Svcs] /\ svcRef \in [Peers -> 0..NB] /\ IterBufs \subseteq Bufs
+          /\ \A p \in Peers : svcRef[p] # 0 => ("alias" \in Defects /\ services[p] = bufs[svcRef[p]])
 
 (* the answer every lookup WOULD give in this state (computed through the implementation layer without *)
 (* performing the call) equals what the abstract layer implies                                         *)
@@ -292,4 +353,15 @@ RemovedIsGone == [][/\ op'[1] = "RemovePeer" => (op'[2] \notin verified' /\ op'[
                           \A p \in Peers : (p \in verified /\ op'[3] \in AddrSet(p)) => (p \notin verified' /\ p \notin byKey')]_vars
 (* ... and can be added again: add_verified_peer of a non-blacklisted identity at a non-blacklisted address verifies it *)
 ReAddWorks    == [][(op'[1] = "AddVerified" /\ op'[2] \notin BlackMid /\ op'[3] \notin BlackAddr) => op'[2] \in verified']_vars
+
+(* ------------------------------ the caller's collections ------------------------------------------- *)
+(* what the caller does with its own collection after the call does not move the graph *)
+ArgumentsNotRetained     == [][op'[1] = "CallerMutates" => UNCHANGED graph]_vars
+(* advertising for one peer changes what that peer advertises, and nobody else's services *)
+OnlyTheNamedPeer         == [][op'[1] \in {"DiscoverServices", "DiscoverServicesBuf"} =>
+                                  \A q \in Peers \ {op'[2]} : services'[q] = services[q]]_vars
+(* no call of the graph writes to a collection of the caller (a one-shot iterator is read to its end) *)
+CallerKeepsItsCollection == [][op'[1] # "CallerMutates" =>
+                                  \A b \in Bufs : bufs'[b] = IF op'[1] = "DiscoverServicesBuf" /\ op'[3] = b /\ b \in IterBufs
+                                                               THEN {} ELSE bufs[b]]_vars
 =============================================================================
